@@ -54,6 +54,10 @@ def cases(tier):
                         else:
                             if len(iset) > 1 or len(iset[0][0]) >= 2:
                                 yield {'d': d, 'm': m, 'ws': [list(w) for w in ws], 'iset': iset, 'var': var}
+                if d == 1:
+                    for iset in [[w] for w in W]:
+                        for ws_i in (ws, [(3, 2), (1, 2)], [(4, 3), (3, 2)]):      # also bases whose FIRST mode is non-integer valued
+                            yield {'d': d, 'm': m, 'ws': [list(w) for w in ws_i], 'iset': iset, 'var': 'hosvd', 'thr': 1e-12, 'mr': 'inf', 'fl': [0, 0], 'dt': 'int'}
 
 
 def run_case(case, seed):
@@ -61,7 +65,12 @@ def run_case(case, seed):
     r = R(case)
     rng = rng_for({k: case[k] for k in ('d', 'm', 'ws')}, seed)
     d, m = case['d'], case['m']
-    x = rng.uniform(-1.5, 1.5, size=(d, m)); x0 = x.copy()
+    x = rng.uniform(-1.5, 1.5, size=(d, m))
+    if case.get('dt') == 'int':
+        x = rng.integers(-3, 4, size=(d, m))          # integer dtype: the transformed data are real-valued all the same
+        for c_ in range(d):                            # distinct snapshots
+            x[c_] = x[c_] + 7 * np.arange(m) * (c_ == 0)
+    x0 = x.copy()
     basis = [[reps(kk % d)[(s + j) % NREP] for j in range(n)] for kk, (s, n) in enumerate(case['ws'])]
     nmode = [len(b) for b in basis]
     P = psi_oracle(x, basis).reshape(-1, m)
@@ -122,8 +131,16 @@ def run_case(case, seed):
                 wnz = w[idx]
                 want = np.real(wnz[np.argsort(np.abs(wnz - 1))])
                 r.true(key + ':eigenvalue-count', k == int(np.sum(rel > 1e-3)), '%d eigenvalues, rank at the 1e-3 cut %d' % (k, int(np.sum(rel > 1e-3))))
-                if np.min(np.abs(np.diff(np.sort(np.abs(wnz - 1))))) > 1e-6 if k > 1 else True:
+                # the order by |lambda - 1| is well defined unless two eigenvalues that are not complex conjugates of each other
+                # are (nearly) equidistant from 1; conjugate pairs tie but have the same real part
+                dist = np.abs(wnz - 1)
+                ambiguous = any(abs(dist[i_] - dist[j_]) < 1e-6 and abs(np.real(wnz[i_]) - np.real(wnz[j_])) > 1e-9
+                                for i_ in range(k) for j_ in range(i_ + 1, k))
+                if not ambiguous:
                     r.close(key + ':eigenvalues', lam, want, 1e-7 * max(1.0, sv[0] / sv[k - 1]), 'list position %d' % kpos)
+                    r.count('eigenvalue_sets_with_complex_pairs', int(np.max(np.abs(np.imag(wnz))) > 1e-9))
+                else:
+                    r.count('eigenvalue_order_ambiguous')
                 for j in range(k):
                     # eigen-equation only where the dense counterpart is real
                     jj = int(np.argmin(np.abs(wnz - lam[j])))
